@@ -34,6 +34,11 @@ func FreePort() int {
 // Start launches fabio with the given arguments; -ui.addr and -insecure are added.
 func Start(bin, logPath string, args []string, env []string) (*Proc, error) {
 	admin := fmt.Sprintf("127.0.0.1:%d", FreePort())
+	for _, a := range args {
+		if strings.Contains(a, admin) { // never the same port as a proxy listener
+			admin = fmt.Sprintf("127.0.0.1:%d", FreePort())
+		}
+	}
 	full := append([]string{"-insecure", "-ui.addr", admin, "-registry.consul.register.enabled=false", "-log.level", "DEBUG"}, args...)
 	cmd := exec.Command(bin, full...)
 	f, err := os.Create(logPath)
